@@ -1099,7 +1099,7 @@ Definition show_rval (x : rres pyval) : string :=
   end.
 
 Definition RFUEL : nat := 400.
-Definition ZDEPTH : nat := 32.   (* depth to which the zone with references is evaluated for the statistics *)
+Definition ZDEPTH : nat := 16.   (* depth to which the zone with references is evaluated for the statistics *)
 
 (* implementation model on the bytes ; specification on the value decoded under the writer schema *)
 Definition run_resolve (o : ropts) (we re : env) (w : schema) (R : option schema) (r : schema) (bs : bytes) : string :=
